@@ -374,6 +374,37 @@ Definition val_member (m : str * N * option comp_entry) : val :=
 Definition check_enum (x : unit * val) : bool :=
   val_eqb (VL (map val_member (enum_members comp_catalog))) (snd x).
 
+(* -------- component_details / search_catalog (component_catalog.py:186-222) -------- *)
+(* component_details: the loop has no break -- the LAST entry whose Model equals wins *)
+Definition component_details (cat : list comp_entry) (model : str) : res str :=
+  match last_opt (filter (fun e => str_eqb model (e_model e)) cat) with
+  | Some e => Ok (e_details e)
+  | None => Err (S"CatalogException")
+  end.
+
+Fixpoint dict_set_s (k v : str) (d : list (str * str)) : list (str * str) :=      (* d[k] = v *)
+  match d with
+  | [] => [(k, v)]
+  | (k', v') :: r => if str_eqb k' k then (k', v) :: r else (k', v') :: dict_set_s k v r
+  end.
+
+(* search_catalog: {Model: Details} of the entries whose Type is str(ctype), in catalogue order *)
+Definition search_catalog (cat : list comp_entry) (t : str) : res (list (str * str)) :=
+  match filter (fun e => str_eqb t (e_type e)) cat with
+  | [] => Err (S"CatalogException")
+  | l => Ok (fold_left (fun d e => dict_set_s (e_model e) (e_details e) d) l [])
+  end.
+
+Definition val_lookup (k : N) (arg : str) : val :=
+  match k with
+  | 0%N => match component_details comp_catalog arg with Ok d => VS d | Err c => VErr c end
+  | _ => match search_catalog comp_catalog arg with
+         | Ok d => VL (map (fun kv => VL [VS (fst kv); VS (snd kv)]) d)
+         | Err c => VErr c
+         end
+  end.
+Definition check_lookup (x : (N * str) * val) : bool := val_eqb (val_lookup (fst (fst x)) (snd (fst x))) (snd x).
+
 (* ------------------------------------------------------------------------------------------ *)
 (* histories of calls                                                                           *)
 (* ------------------------------------------------------------------------------------------ *)
